@@ -655,6 +655,14 @@ func (fc *FnCtx) unop(in *ssa.UnOp, st *State) Val {
 				return &FuncRef{fn}
 			}
 		}
+		if al, ok := in.X.(*ssa.Alloc); ok {
+			// a function variable assigned once with a func literal denotes that literal
+			if mc := uniqueClosureStore(al); mc != nil {
+				if cl, ok := fc.regs[mc].(*Closure); ok {
+					return cl
+				}
+			}
+		}
 		a := fc.ptrAddr(fc.val(in.X, st), in.X.Type(), st)
 		v := fc.load(a, st)
 		if v.Sort == "Ref" && a.Kind != aLocal {
